@@ -261,3 +261,44 @@ package gmtls
 //@   (ensures verified (=> (and (isnil result.1) (bvsgt (len certificates) 0)
 //@                             (bvsge (old (field (field (field hs c) config) ClientAuth)) 3))
 //@                        (bvugt (ghost x509.okverifies) (old (ghost x509.okverifies))))))
+
+// ---- key establishment and record sizing (C06, per call) ---------------------------------------------------------------
+// the supported protocol versions: SSL 3.0, TLS 1.0 - 1.2 and GMSSL (0x0101)
+//@ (defmacro knownVersion (v) (or (= v #x0300) (= v #x0301) (= v #x0302) (= v #x0303) (= v #x0101)))
+// every supported version gets a PRF (the closure value is not nil), alone or together with the transcript hashes
+//@ (func prfForVersion sweep
+//@   (requires version (knownVersion version))
+//@   (requires suite (not (isnil suite)))
+//@   (ensures prf (not (isnil result))))
+//@ (func newFinishedHash sweep
+//@   (requires version (knownVersion version))
+//@   (requires suite (not (isnil cipherSuite)))
+//@   (ensures prf (not (isnil (field result prf))))
+//@   (ensures hashes (and (not (isnil (field result client))) (not (isnil (field result server)))))
+//@   (ensures version (= (field result version) version)))
+// the master secret has 48 bytes in memory of its own
+//@ (func masterFromPreMasterSecret sweep
+//@   (requires version (knownVersion version))
+//@   (requires suite (not (isnil suite)))
+//@   (fresh result)
+//@   (ensures len (= (len result) 48)))
+// the key block is cut into client MAC key, server MAC key, client key, server key, client IV, server IV, in this order,
+// adjacent and of the requested lengths (both sides call this function with the same arguments)
+//@ (func keysFromMasterSecret sweep
+//@   (requires version (knownVersion version))
+//@   (requires suite (not (isnil suite)))
+//@   (requires sizes (and (bvsge macLen 0) (bvsle macLen 1024) (bvsge keyLen 0) (bvsle keyLen 1024) (bvsge ivLen 0) (bvsle ivLen 1024)))
+//@   (fresh clientMAC)
+//@   (ensures lens (and (= (len clientMAC) macLen) (= (len serverMAC) macLen) (= (len clientKey) keyLen) (= (len serverKey) keyLen)
+//@                      (= (len clientIV) ivLen) (= (len serverIV) ivLen)))
+//@   (ensures same (and (= (obj serverMAC) (obj clientMAC)) (= (obj clientKey) (obj clientMAC)) (= (obj serverKey) (obj clientMAC))
+//@                      (= (obj clientIV) (obj clientMAC)) (= (obj serverIV) (obj clientMAC))))
+//@   (ensures adjacent (and (= (off serverMAC) (bvadd (off clientMAC) macLen)) (= (off clientKey) (bvadd (off serverMAC) macLen))
+//@                          (= (off serverKey) (bvadd (off clientKey) keyLen)) (= (off clientIV) (bvadd (off serverKey) keyLen))
+//@                          (= (off serverIV) (bvadd (off clientIV) ivLen)))))
+// a record payload is between 1 and 2^14 bytes whenever the cipher state's sizes are those of the supported suites
+//@ (func "(*Conn).maxPayloadSizeForWrite" sweep
+//@   (requires nn (and (not (isnil c)) (not (isnil (field c config)))))
+//@   (requires iv (and (bvsge explicitIVLen 0) (bvsle explicitIVLen 255)))
+//@   (requires sent (bvsge (field c packetsSent) 0))
+//@   (ensures range (and (bvsge result 1) (bvsle result 16384))))
